@@ -64,6 +64,10 @@ FOREIGN_LEAVES = (
     # standard-library globals that are only referenced: the static check has nothing against
     # them, the allowlist does
     ("datetime", "date", None), ("colorsys", "rgb_to_hsv", None), ("decimal", "Decimal", None),
+    # Python-2 spellings whose Python-3 counterpart is allow-listed: from protocol 3 on nothing is
+    # renamed, so these are what they look like - modules outside the allowlist
+    ("UserDict", "OrderedDict", "py2"), ("copy_reg", "_reconstructor", "py2"), ("cPickle", "loads", "py2"),
+    ("__builtin__", "set", "py2"),
     # protocol-4 qualified names: only the exact dotted name may be looked up in the allowlist
     ("collections", "OrderedDict.fromkeys", None),
     ("argparse", "Namespace.__init__", None),
@@ -109,8 +113,10 @@ _INST_ITEMS = {"empty": b"", "tuple12": b"(K\x01K\x02t", "latin": b"X\x01\x00\x0
 
 def leaf_pickle(globs, inst=False):
     # qualified (dotted) names are only resolvable at protocol >= 4
-    out = (b"\x80\x04" if any("." in n for _m, n, _k in globs) else b"") + b"("
+    out = (b"\x80\x04" if any("." in n or k == "py2" for _m, n, k in globs) else b"") + b"("
     for m, n, kind in globs:
+        if kind == "py2":
+            kind = None  # resolved only
         if inst and kind is not None and "." not in n:
             # the protocol-0 way of resolving and calling a global: no GLOBAL / STACK_GLOBAL opcode
             out += b"(" + _INST_ITEMS[kind] + f"i{m}\n{n}\n".encode()
@@ -276,6 +282,17 @@ def check(leaf_globs, loaders, entry, additions, layer="none", stream="bytesio")
     if not foreign:
         stock = outcome_of(entry, data)  # hooks removed: the stock behaviour
     mon = Monitor.get()
+    if len(data) % 2:
+        # earlier in the process somebody used the unpickler class directly, with additions of
+        # their own; that is over by the time the environment under test is activated
+        from fickling.ml import FicklingMLUnpickler
+
+        for blob in (b"N.", b"cos\ngetpid\n."):
+            try:
+                FicklingMLUnpickler(io.BytesIO(blob), also_allow=["os.getpid", "verif_sink.sink", "pickle.loads",
+                                                                   "collections.Counter"]).load()  # fmt: skip
+            except Exception:  # noqa: BLE001
+                pass
     hook.activate_safe_ml_environment(also_allow=list(additions) or None)
     ctx = None
     try:
